@@ -1,2 +1,225 @@
+import DuneVerif.Model.C05
 import DuneVerif.Common.Proto
-def main : IO Unit := DV.runDriver fun _ => "bad-op"
+/-!
+line-protocol driver for C05 (format: see harness/mpi_c05.cc)
+
+  c05 <P> <flags> <ign> <S> <T> <pay> <pol> <comm> <cont> <rounds> : s,r,g,l,attr,pub;...
+
+The driver builds the `System`, runs `interfaceOf`, `buildComm` and one `roundCallsAt` per rank and round
+(arrival and completion order = rank order; the theorems say the order is irrelevant), and applies the calls with
+a scatter policy that additionally tracks which entries the property leaves open (copy policy, several senders):
+such entries are printed as `*`, exactly as the harness does.
+-/
+open DV DV.C05
+
+namespace C05Drv
+
+/-- value of one component; `none` = left open by the property -/
+abbrev Comp := Option Int
+/-- one container cell: value and "written in this round" -/
+structure Cell where
+  v : Comp
+  w : Bool := false
+  deriving Inhabited
+/-- a container: per local index the components -/
+abbrev Data := List (List Cell)
+/-- one `IndexedType` value: one component (s1, v) or three (s3) -/
+abbrev Val := List Comp
+
+structure Cfg where
+  P : Nat
+  two : List Bool
+  ign : Bool
+  S : Nat
+  T : Nat
+  pay : Nat          -- 0 s1, 1 s3, 2 v
+  vk : Nat
+  add : Bool
+  dt : Bool
+  c1 : Bool
+  rounds : List Char
+
+def strictNat? (s : String) (lo hi : Nat) : Option Nat :=
+  let cs := s.toList
+  if cs.isEmpty || cs.length > 6 || !cs.all Char.isDigit then none else
+  let n := cs.foldl (fun acc c => acc * 10 + (c.toNat - '0'.toNat)) 0
+  if lo ≤ n ∧ n ≤ hi then some n else none
+
+def inMask (m a : Nat) : Bool := (m >>> a) % 2 == 1
+
+def blk (cfg : Cfg) (g : Int) : Nat :=
+  if cfg.pay == 0 then 1 else if cfg.pay == 1 then 3 else 1 + ((g + cfg.vk) % 3).toNat
+
+/-- block sizes of the container belonging to an index set -/
+def blockSizes (cfg : Cfg) (s : List Entry) : List Nat :=
+  let n := s.foldl (fun n e => max n (e.l + 1)) 1
+  (List.range n).map fun l =>
+    match s.find? (fun e => e.l == l) with
+    | some e => blk cfg e.g
+    | none => if cfg.pay == 1 then 3 else 1
+
+def initVal (r c l j : Nat) : Int := ((r + 1) * 100000 + c * 50000 + l * 10 + j + 1 : Nat)
+
+def mkData (r c : Nat) (bs : List Nat) : Data :=
+  bs.zipIdx.map fun (b, l) => (List.range b).map fun j => { v := some (initVal r c l j) }
+
+structure RankSt where
+  c0 : Data
+  c1 : Data
+  one : Bool
+  out : List String := []
+  deriving Inhabited
+
+def RankSt.get (r : RankSt) (k : Nat) : Data := if k == 0 || r.one then r.c0 else r.c1
+def RankSt.set (r : RankSt) (k : Nat) (d : Data) : RankSt := if k == 0 || r.one then { r with c0 := d } else { r with c1 := d }
+
+def gatherD (whole : Bool) (d : Data) (l j : Nat) : Val :=
+  let b := d.getD l []
+  if whole then b.map (·.v) else [(b.getD j default).v]
+
+def updCell (add : Bool) (c : Cell) (x : Comp) : Cell :=
+  if add then { v := (match c.v, x with | some a, some b => some (a + b) | _, _ => none), w := true }
+  else if c.w then { v := none, w := true } else { v := x, w := true }
+
+def scatterD (whole add : Bool) (d : Data) (x : Val) (l j : Nat) : Data :=
+  d.modify l fun b =>
+    if whole then (b.zip (x ++ List.replicate b.length none)).map fun (c, y) => updCell add c y
+    else b.modify j fun c => updCell add c (x.getD 0 none)
+
+def clearW (d : Data) : Data := d.map fun b => b.map fun c => { c with w := false }
+
+def showData (d : Data) : String :=
+  "[" ++ ",".intercalate (d.flatten.map fun c => match c.v with | some v => toString v | none => "*") ++ "]"
+
+def hasDup (l : List Nat) : Bool :=
+  match l with
+  | [] => false
+  | x :: xs => xs.contains x || hasDup xs
+
+def parseEntry (cfg : Cfg) (seg : String) : Option (Nat × Nat × Entry) :=
+  match seg.splitOn "," with
+  | [s, r, g, l, a, pb] =>
+    let neg := g.toList.head? == some '-'
+    let gabs := if neg then String.ofList (g.toList.drop 1) else g
+    match strictNat? s 0 1, strictNat? r 0 (cfg.P - 1), strictNat? gabs 0 99999, strictNat? l 0 999, strictNat? a 0 3,
+          strictNat? pb 0 1 with
+    | some s, some r, some ga, some l, some a, some pb =>
+      some (s, r, { g := if neg then -(ga : Int) else ga, l := l, a := a, pub := pb == 1 })
+    | _, _, _, _, _, _ => none
+  | _ => none
+
+def insertByG (x : Entry) : List Entry → List Entry
+  | [] => [x]
+  | y :: ys => if x.g < y.g then x :: y :: ys else y :: insertByG x ys
+
+/-- add the entries in op-line order; `none` on a repeated global or local index inside one set -/
+def addEntries (cfg : Cfg) (segs : List String) : Option (Array (List Entry × List Entry)) :=
+  segs.foldlM (init := Array.replicate cfg.P ([], [])) fun acc seg =>
+    let seg := String.ofList (seg.toList.filter (· != ' '))
+    if seg.isEmpty then some acc else
+    match parseEntry cfg seg with
+    | none => none
+    | some (s, r, e) =>
+      if s == 1 && !(cfg.two.getD r false) then some acc else
+      let cur := acc.getD r ([], [])
+      let set := if s == 0 then cur.1 else cur.2
+      if set.any (fun f => f.g == e.g || f.l == e.l) then none else
+      let set' := insertByG e set
+      some (acc.setIfInBounds r (if s == 0 then (set', cur.2) else (cur.1, set')))
+
+def parseCfg (ws : List String) : Option Cfg :=
+  match ws with
+  | ["c05", p, flags, ign, s, t, pay, pol, comm, cont, rounds] =>
+    match strictNat? p 1 64, strictNat? ign 0 1, strictNat? s 0 15, strictNat? t 0 15 with
+    | some P, some ign, some S, some T =>
+      let fl := flags.toList
+      if fl.length != P || !fl.all (fun c => c == '0' || c == '1') then none else
+      let payk : Option (Nat × Nat) :=
+        if pay == "s1" then some (0, 0) else if pay == "s3" then some (1, 0)
+        else if pay == "v0" then some (2, 0) else if pay == "v1" then some (2, 1) else if pay == "v2" then some (2, 2) else none
+      let add? : Option Bool := if pol == "copy" then some false else if pol == "add" then some true else none
+      let dt? : Option Bool := if comm == "buf" then some false else if comm == "dt" then some true else none
+      let c1? : Option Bool := if cont == "c1" then some true else if cont == "c2" then some false else none
+      let rd := rounds.toList
+      match payk, add?, dt?, c1? with
+      | some (pay, vk), some add, some dt, some c1 =>
+        if dt && add then none else
+        if rd.isEmpty || rd.length > 6 || !rd.all (fun c => c == 'f' || c == 'b') then none else
+        some { P := P, two := fl.map (· == '1'), ign := ign == 1, S := S, T := T, pay := pay, vk := vk, add := add, dt := dt,
+               c1 := c1, rounds := rd }
+      | _, _, _, _ => none
+    | _, _, _, _ => none
+  | _ => none
+
+def showIf (m : IfMap) : String :=
+  "I" ++ String.join (m.map fun e => " " ++ toString e.1 ++ ":" ++ showList e.2.1.idx ++ "|" ++ showList e.2.2.idx)
+
+def run (cfg : Cfg) (sets : Array (List Entry × List Entry)) : String :=
+  let P := cfg.P
+  let sys : System :=
+    { P := P, rank := fun r => let s := sets.getD r ([], []); { src := s.1, tgt := s.2, two := cfg.two.getD r false } }
+  let S := inMask cfg.S
+  let T := inMask cfg.T
+  let whole := cfg.pay == 1
+  let sz := if cfg.pay == 1 then 24 else 8
+  let ranks := List.range P
+  let ifs := ranks.map fun p => interfaceOf cfg.ign S T sys p
+  let raw := ranks.map fun p => buildInterfaceRaw S T (remoteSpec cfg.ign sys p)
+  let bsS := ranks.map fun p => blockSizes cfg (sys.rank p).src
+  let bsT := ranks.map fun p => blockSizes cfg (sys.rank p).tgtSet
+  let csOf (bs : List (List Nat)) (p : Nat) : Nat → Nat :=
+    if cfg.pay == 2 then fun l => (bs.getD p []).getD l 1 else fun _ => 1
+  let comm (p : Nat) : Comm := buildComm sz (csOf bsS p) (csOf bsT p) (ifs.getD p [])
+  let oneC (r : Nat) : Bool := cfg.c1 && !(cfg.two.getD r false)
+  let init : List RankSt := ranks.map fun r =>
+    { c0 := mkData r 0 (bsS.getD r []), c1 := mkData r 1 (bsT.getD r []), one := oneC r,
+      out := ["S " ++ showList (selection S (sys.rank r).src), showIf (ifs.getD r [])] }
+  -- is the derived-datatype variant free of overlapping receive buffers?
+  let useF := cfg.rounds.contains 'f'
+  let useB := cfg.rounds.contains 'b'
+  let feasible := ranks.all fun r =>
+    let m := ifs.getD r []
+    let snd := m.flatMap (·.2.1.idx)
+    let rcv := m.flatMap (·.2.2.idx)
+    !(useF && hasDup rcv) && !(useB && hasDup snd) && !(oneC r && snd.any rcv.contains)
+  let showD (st : RankSt) : String :=
+    "D " ++ showData st.c0 ++ (if st.one then "" else "|" ++ showData st.c1)
+  let fin : List RankSt :=
+    if cfg.dt && !feasible then init.map fun st => { st with out := "skip" :: st.out } else
+    cfg.rounds.foldl (init := init) fun sts dir =>
+      let fwd := dir == 'f'
+      let kS := if fwd then 0 else 1
+      let kR := if fwd then 1 else 0
+      let gat (p : Nat) : Nat → Nat → Val := gatherD whole ((sts.getD p default).get kS)
+      ranks.map fun q =>
+        let st := sts.getD q default
+        let calls : List (Val × Nat × Nat) :=
+          if cfg.dt then
+            let nbs := (raw.getD q []).map fun e =>
+              let theirs := (raw.getD e.1 []).get q
+              (e.1, (if fwd then theirs.1 else theirs.2), (if fwd then e.2.2 else e.2.1))
+            dtCalls ((comm q).csRecv fwd) gat (fun p => (comm p).csSend fwd) nbs
+          else
+            let ord := (comm q).postedRecvs fwd
+            roundCallsAt comm fwd gat [] q ord ord
+        let d := applyCalls (scatterD whole cfg.add) (clearW (st.get kR)) calls
+        let st' := st.set kR d
+        { st' with out := showD st' :: st'.out }
+  " ".intercalate (ranks.map fun r =>
+    "r" ++ toString r ++ "{" ++ ";".intercalate ((fin.getD r default).out.reverse) ++ "}")
+
+def handle (line : String) : String :=
+  let parts := line.splitOn " :"
+  let head := parts.headD ""
+  let body := " :".intercalate (parts.drop 1)
+  match parseCfg (tokens head) with
+  | none => "bad-op"
+  | some cfg =>
+    match addEntries cfg (body.splitOn ";") with
+    | none => "bad-op"
+    | some sets =>
+      if cfg.P == 0 then "bad-op" else run cfg sets
+
+end C05Drv
+
+def main : IO Unit := DV.runDriver C05Drv.handle
